@@ -7,7 +7,7 @@
    [py_compare T] is pytezos' compare() (== then <, class by class); [T : texts] holds the
    base58check texts the string-valued classes compare, constrained only by [texts_ok T]
    (text order = payload order on key hashes and chain ids, texts determine payloads). *)
-From Coq Require Import List ZArith Bool Sorted String.
+From Coq Require Import List ZArith NArith Bool Sorted String.
 From Coq.Strings Require Import Byte.
 From PV Require Import Base.Bytes Base.Result Michelson.Compare Michelson.Collections
   Proofs.Collections_proofs Proofs.Compare_proofs.
@@ -100,6 +100,21 @@ Proof.
   split; [intros V ops; apply raw_map_sorted, TOK | apply raw_literal, TOK].
 Qed.
 Print Assumptions C03_collections_ordered_by_cmp.
+
+(* the order laws assumed of the key_hash / chain_id texts ([kh_order], [cid_order] of texts_ok) hold
+   for the concrete base58check texts of Compare.v — the number prefix ++ payload ++ checksum written
+   with 36 resp. 15 base-58 digits — whatever the 4-byte checksum function is; so for these two
+   classes only the checksum (double SHA-256) remains an oracle.  (The run checks that these
+   concrete texts are the real strings.) *)
+Theorem C03_base58_texts_order_like_payloads : forall ck : bytes -> bytes,
+  (forall b, List.length (ck b) = 4) ->
+  (forall c h c' h', List.length h = 20 -> List.length h' = 20 ->
+     lex_cmp (kh_text ck c h) (kh_text ck c' h') = then_cmp (N.compare (curve_idx c) (curve_idx c')) (lex_cmp h h')) /\
+  (forall x y, List.length x = 4 -> List.length y = 4 -> lex_cmp (cid_text ck x) (cid_text ck y) = lex_cmp x y).
+Proof.
+  intros ck L. split; [apply kh_text_order, L | apply cid_text_order, L].
+Qed.
+Print Assumptions C03_base58_texts_order_like_payloads.
 
 (* ---- non-vacuity *)
 
